@@ -42,10 +42,10 @@ OFFSETS = [0, 1, 5, 255, 256, 65535, 65536]
 
 def plan(tier, seed):
     jobs = [{"name": "appnotes", "spec": {"kind": "appnotes"}}]
-    n = 3000 if tier == "quick" else 100000
+    n = 12000 if tier == "quick" else 150000
     for i in range(NSH):
         jobs.append({"name": "bf3_%02d" % i, "spec": {"kind": "bf3", "n": n // NSH}})
-    nb = 320 if tier == "quick" else 12000
+    nb = 1280 if tier == "quick" else 16000
     for i in range(NSH):
         jobs.append({"name": "bec2_%02d" % i, "spec": {"kind": "bec2", "n": nb // NSH, "i": i}})
     return jobs
